@@ -5,9 +5,12 @@
    x {serial, thread}, compared with the model and judged by the oracle
  * CLI part: a few cyclic dodo modules through DoitMain: exit 3 and nothing executed (the load-time check
    of TaskControl and the run-time check of the dispatcher)
+ * declaration-form part (harness/c09_decl.py): generated dodo modules whose dependency attributes are written with
+   module-level list / tuple / dict objects shared by several tasks and attributes, judged from the declared graph
+   alone and compared with Model/DeclTable.v (decl_table + run_serial)
 """
 import itertools, os, subprocess, sys, tempfile, textwrap
-import common, runfam, runlib
+import common, runfam, runlib, c09_decl
 
 
 def blank(task_dep=(), setup=()):
@@ -118,6 +121,7 @@ def run(ctx):
     out.extra['exhaustive_3_task_digraph_cases'] = len(extra)
     cli_part(ctx, out)
     termination_part(ctx, out)
+    c09_decl.part(ctx, out)
     out.rule += ('; plus every 3-task digraph (task_dep only in quick; task_dep/setup per edge in thorough) x selections x {serial, thread}; '
                  'plus cyclic dodo modules through `python -m doit` (exit 3, nothing executed)')
     return out
